@@ -86,6 +86,17 @@ EdgePath(N, E, a, b) == EdgesAlong(E, NodePath(N, E, a, b))
 DescTable(N, E) == [n \in N |-> Desc(E, n)]
 MrcaT(D, S) == CHOOSE m \in DOMAIN D : S \subseteq D[m] /\ \A k \in DOMAIN D : S \subseteq D[k] => m \in D[k]
 
+\* ---- orienting an arbitrary graph from a root (DAG::rootAt, GlobalGraph::orientate)
+\* possible exactly when the graph, read without directions, is connected and simple
+Simple(E) == /\ \A e \in DOMAIN E : E[e][1] # E[e][2]
+             /\ ~Reciprocal(E)
+Orientable(N, E, r) == r \in N /\ Simple(E) /\ ReachFrom(E, FALSE, {r}) = N
+\* E2 is E with some edges turned round: same ids on the same links
+SameLinks(E, E2) == DOMAIN E2 = DOMAIN E /\ \A e \in DOMAIN E : Unordered(E2[e]) = Unordered(E[e])
+Flip(E, F) == [e \in DOMAIN E |-> IF e \in F THEN <<E[e][2], E[e][1]>> ELSE E[e]]
+\* what "the DAG hangs from r" means: acyclic and r is the one node without father
+HangsFrom(N, E, r) == IsDagDef(N, E) /\ Fatherless(N, E) = {r}
+
 \* ---- re-rooting: same edges, each one oriented away from the new root
 \* (the end point that stays connected to r when the edge is cut comes first)
 Reroot(E, r) ==
